@@ -192,7 +192,7 @@ pub fn run(rep: &mut Rep) {
         }
     }
     // (c) random lists up to 64 entries, algs across i32, type strings 0..=32 bytes
-    let n = rep.n(4000, 400_000);
+    let n = rep.n(4000, 2_000_000);
     for _ in 0..n * rep.nshards {
         case += 1;
         if !rep.mine(case) {
